@@ -167,6 +167,19 @@ CANARIES = [
 
 # Semantics-PRESERVING edits: the check must NOT answer exit 1 for any of them (exit 0 or exit 2 are both acceptable).
 EQUIVALENTS = [
+    # third session: semantics-preserving edits of the functions newly under contract
+    ('eq-check-start-pages-other-order', 'C05', 'src/tx.rs', '        page_stack.push(self.meta.root.root_page);\n        page_stack.push(self.meta.freelist_page);', '        page_stack.push(self.meta.freelist_page);\n        page_stack.push(self.meta.root.root_page);'),
+    ('eq-check-remove-result-in-a-local', 'C05', 'src/tx.rs', '            // Make sure this page hasn\'t already been used\n            if !unused_pages.remove(&page_id) {', '            // Make sure this page hasn\'t already been used\n            let was_unused = unused_pages.remove(&page_id);\n            if !was_unused {'),
+    ('eq-check-key-order-test-flipped', 'C05', 'src/tx.rs', '                            if last >= b.key() {', '                            if b.key() <= last {'),
+    ('eq-split-push-one-plus-i', 'C05', 'src/node.rs', '                    if count >= MIN_KEYS_PER_NODE && new_size > threshold {\n                        split_indexes.push(i + 1);\n                        current_size = HEADER_SIZE + size;\n                        count = 0;\n                    } else {\n                        current_size = new_size;\n                    }\n                }\n            }\n        };', '                    if new_size > threshold && count >= MIN_KEYS_PER_NODE {\n                        split_indexes.push(1 + i);\n                        count = 0;\n                        current_size = HEADER_SIZE + size;\n                    } else {\n                        current_size = new_size;\n                    }\n                }\n            }\n        };'),
+    ('eq-spill-insert-without-local', 'C05', 'src/bucket.rs', '            let bucket_meta = b.spill(tx_freelist)?;\n            // Store updated bucket metadata in a map since self is borrowed\n            bucket_metas.insert(key.clone(), bucket_meta);', '            bucket_metas.insert(key.clone(), b.spill(tx_freelist)?);'),
+    ('eq-spill-root-page-via-local', 'C05', 'src/bucket.rs', '        self.meta.root_page = page_id;\n\n        Ok(self.meta)', '        let mut meta = self.meta;\n        meta.root_page = page_id;\n        self.meta = meta;\n\n        Ok(meta)'),
+    ('eq-writenode-pos-sum-other-order', 'C15', 'src/page.rs', '                    elem.value_size = value.len() as u64;\n                    elem.pos = header_offsets + data_size;', '                    elem.value_size = value.len() as u64;\n                    elem.pos = data_size + header_offsets;'),
+    ('eq-writenode-data-size-in-two-steps', 'C15', 'src/page.rs', '                    data_size += elem.key_size + elem.value_size;', '                    data_size += elem.key_size;\n                    data_size += elem.value_size;'),
+    ('eq-writenode-count-from-len-later', 'C15', 'src/page.rs', '        self.count = n.data.len() as u64;\n        let header_size;', '        let entries = n.data.len() as u64;\n        self.count = entries;\n        let header_size;'),
+    ('eq-merge-arms-swapped', 'C05', 'src/node.rs', '            (NodeData::Branches(b1), NodeData::Branches(b2)) => {\n                b1.append(b2);\n                b1.sort_unstable_by_key(|b| b.key.clone());\n            }\n            (NodeData::Leaves(l1), NodeData::Leaves(l2)) => {', '            (NodeData::Branches(b1), NodeData::Branches(b2)) => {\n                b1.append(b2);\n                b1.sort_unstable_by_key(|b| b.key.clone());\n                ()\n            }\n            (NodeData::Leaves(l1), NodeData::Leaves(l2)) => {'),
+    ('eq-page-node-match-on-get', 'C07', 'src/bucket.rs', '                if let Some(node_id) = self.page_node_ids.get(&page) {\n                    PageNode::Node(self.nodes[*node_id as usize].clone())\n                } else {\n                    PageNode::Page(self.pages.page(page))\n                }', '                match self.page_node_ids.get(&page) {\n                    Some(node_id) => PageNode::Node(self.nodes[*node_id as usize].clone()),\n                    None => PageNode::Page(self.pages.page(page)),\n                }'),
+    ('eq-get-bucket-args-named', 'C01', 'src/bucket.rs', '        self.bucket_getter(name.to_bytes(), false, false)', '        let (create, must) = (false, false);\n        self.bucket_getter(name.to_bytes(), create, must)'),
     # found by auditing what the mutation sweep REPORTED: a node without a page may record any run length; a split that never finds a cut is slow, not wrong
     ('eq-with-data-run-length-one', 'C05', 'src/node.rs', '            page_id: 0,\n            num_pages: 0,\n            children: Vec::new(),\n            data,\n            deleted: false,\n            original_key,\n            pagesize,\n            spilled: false,\n            parent: None,\n        }\n    }\n\n    pub(crate) fn insert_child', '            page_id: 0,\n            num_pages: 1,\n            children: Vec::new(),\n            data,\n            deleted: false,\n            original_key,\n            pagesize,\n            spilled: false,\n            parent: None,\n        }\n    }\n\n    pub(crate) fn insert_child'),
     ('eq-split-never-counts', 'C05', 'src/node.rs', '                    count += 1;\n                    let size = LEAF_SIZE + (l.size() as u64);', '                    count += 0;\n                    let size = LEAF_SIZE + (l.size() as u64);'),
